@@ -13,6 +13,7 @@ ASSUME = [
 ALGEBRA = ['add', 'sub', 'iadd', 'isub', 'mul', 'rmul', 'div', 'imul', 'idiv', 'neg', 'copy', 'backwards', 'set_X', 'item_set_X', 'set_set_X',
            'item_imul', 'item_idiv', 'set_assign_X', 'reduce', 'reduce', 'to_wt', 'to_wt', 'to_mol', 'mkset', 'set_copy', 'set_copy', 'tagged_probe', 'tagged_probe']
 APPLY = ['react', 'react_set']
+APPLY_C05 = APPLY + ['system_rebased']
 SHAPE = ['load', 'load', 'set_feed', 'mkset']
 
 
